@@ -116,6 +116,23 @@ Theorem C13_roundtrip_examples3 :
 Proof. exact roundtrip_examples3. Qed.
 Print Assumptions C13_roundtrip_examples3.
 
+(* cv- and ref-qualified member functions (the V K R O of <nested-name>), with or without templates:
+     _Z N [V] [K] [R | O] (<source-name> [I <builtin type>+ E])+ [C<n> | D<n> | <operator code>] E <builtin type>*
+   e.g. _ZNO5store3Buf4takeEv (int store::Buf::take() &&) demangles to store::Buf::take *)
+Theorem C13_roundtrip_qualified_partial : forall quals d, qdecl_okb quals d = true ->
+  demangle (qmangle quals d) = Str (simple_name (erase d)).
+Proof. exact roundtrip_qualified. Qed.
+Print Assumptions C13_roundtrip_qualified_partial.
+
+Theorem C13_roundtrip_examples4 :
+  qdecl_okb (str "O") td_take = true /\ qmangle (str "O") td_take = str "_ZNO5store3Buf4takeEv" /\
+  simple_name (erase td_take) = str "store::Buf::take" /\
+  qdecl_okb (str "KR") td_qop = true /\ qmangle (str "KR") td_qop = str "_ZNKR5store3BufIiEplEi" /\
+  simple_name (erase td_qop) = str "store::Buf::operator+" /\
+  qdecl_okb (str "r") td_take = false.
+Proof. exact roundtrip_examples4. Qed.
+Print Assumptions C13_roundtrip_examples4.
+
 (* Rust legacy scheme: _ZN <source-name>+ 17h<16 hex digits> E demangles to the path without the hash *)
 Theorem C13_roundtrip_rust_legacy_partial : forall a cs h, rust_okb a cs h = true ->
   demangle (rust_mangle a cs h) = Str (join_sep (a :: cs)).
